@@ -209,7 +209,7 @@ func vhHipLow(v Value, _ []byte) ([]byte, error) {
 // one object (which two independent goroutines would otherwise share), and a
 // later independent map sees no trace of the earlier keys.
 //
-//vh:prop C16 C04 C12
+//vh:prop C16 C04 C12 C13
 //vh:param ops 3 4
 func VH_C16_DigesterPoolDiscipline() {
 	vhSetThreshold(256)
@@ -269,7 +269,138 @@ func VH_C16_DigesterPoolDiscipline() {
 	verr := VerifyMap(m, addr, vTypeInfo{id: 42}, vhTic, vhHipLow, true)
 	vhAssert(verr == nil, "map valid")
 	checkPool("after verify")
+	// every MUTABLE enumeration flavour (keyed next-key lookups with pooled
+	// digesters) agrees with the read-only one, and leaves the pool in order
+	var ro []uint64
+	err = m.IterateReadOnly(func(k, v Value) (bool, error) {
+		ro = append(ro, uint64(k.(vU64)))
+		return true, nil
+	})
+	vhAssert(err == nil, "read-only enumeration")
+	var mu []uint64
+	switch vhChoose("flavour", 3) {
+	case 0:
+		err = m.Iterate(vhCompareBK, vhHipLow, func(k, v Value) (bool, error) {
+			mu = append(mu, uint64(k.(vU64)))
+			return true, nil
+		})
+	case 1:
+		err = m.IterateKeys(vhCompareBK, vhHipLow, func(k Value) (bool, error) {
+			mu = append(mu, uint64(k.(vU64)))
+			return true, nil
+		})
+	case 2:
+		it, ierr := m.Iterator(vhCompareBK, vhHipLow)
+		vhAssert(ierr == nil, "iterator")
+		if ierr == nil {
+			for {
+				k, _, nerr := it.Next()
+				if nerr != nil {
+					err = nerr
+					break
+				}
+				if k == nil {
+					break
+				}
+				mu = append(mu, uint64(k.(vU64)))
+			}
+		}
+	}
+	vhAssert(err == nil, "mutable enumeration over real collisions: no error")
+	vhSameSeq(mu, ro, "mutable enumeration equals the read-only one")
+	checkPool("after mutable enumeration")
 	vhReach("digester-pool-done")
+}
+
+// vFailStorable: a value whose Storable() fails (a caller-supplied component error).
+type vFailStorable struct{}
+
+var _ Value = vFailStorable{}
+
+func (vFailStorable) Storable(SlabStorage, Address, uint32) (Storable, error) {
+	return nil, fmt.Errorf("injected Storable failure")
+}
+
+// The batch map builder with the pooled default digesters: a source map with
+// REAL full collisions (1, 257, 513 and 2, 258 collide pairwise) is streamed, in
+// its own order and with its seed, into NewMapFromBatchData; by choice one
+// element's value fails to become a storable (error path). Afterwards two
+// consecutive Gets from the digester pool return different objects (no
+// digester was returned twice), a successful build equals the source and is
+// valid, and an independent map built next is unaffected.
+//
+//vh:prop C16 C17 C04
+func VH_C16_BatchDigesterPoolDiscipline() {
+	vhSetThreshold(256)
+	storage := vhNewBasicStorage()
+	addr := vhAddr(1)
+	src, err := NewMap(storage, addr, NewDefaultDigesterBuilder(), vTypeInfo{id: 42})
+	vhAssert(err == nil, "new map")
+	if err != nil {
+		return
+	}
+	all := []uint64{1, 257, 513, 2, 258, 3}
+	nkeys := 3 + vhChoose("nkeys", 4)
+	for _, k := range all[:nkeys] {
+		_, err := src.Set(vhCompareBK, vhHipLow, vBKey{val: k}, vU64(k+1000))
+		vhAssert(err == nil, "source set")
+	}
+	var ks, vs []uint64
+	_ = src.IterateReadOnly(func(k, v Value) (bool, error) {
+		ks = append(ks, uint64(k.(vU64)))
+		vs = append(vs, uint64(v.(vU64)))
+		return true, nil
+	})
+	failAt := vhChoose("failat", len(ks)+1) // len(ks) = no failure
+	i := 0
+	m, berr := NewMapFromBatchData(storage, addr, NewDefaultDigesterBuilder(), vTypeInfo{id: 42}, vhCompareBK, vhHipLow, src.Seed(),
+		func() (Value, Value, error) {
+			if i >= len(ks) {
+				return nil, nil, nil
+			}
+			k, v := ks[i], vs[i]
+			i++
+			if i-1 == failAt {
+				return vBKey{val: k}, vFailStorable{}, nil
+			}
+			return vBKey{val: k}, vU64(v), nil
+		})
+	d1 := getBasicDigester()
+	d2 := getBasicDigester()
+	vhAssert(d1 != d2, "after the batch build: a pooled digester was returned twice")
+	putDigester(d2)
+	putDigester(d1)
+	if failAt < len(ks) {
+		vhAssert(berr != nil, "failing element makes the build fail")
+	} else {
+		vhAssert(berr == nil, "batch build succeeds")
+		if berr == nil {
+			vhAssert(m.Count() == uint64(len(ks)), "built map count")
+			vhAssert(VerifyMap(m, addr, vTypeInfo{id: 42}, vhTic, vhHipLow, true) == nil, "built map valid")
+			for j, k := range ks {
+				v, gerr := m.Get(vhCompareBK, vhHipLow, vBKey{val: k})
+				vhAssert(gerr == nil, "built map has every source key")
+				if gerr == nil {
+					vhAssert(uint64(v.(vU64)) == vs[j], "built map value")
+				}
+			}
+		}
+	}
+	// an independent map used afterwards behaves as if alone
+	other, _ := NewMap(storage, vhAddr(2), NewDefaultDigesterBuilder(), vTypeInfo{id: 43})
+	for _, k := range []uint64{7, 263, 8} {
+		_, err := other.Set(vhCompareBK, vhHipLow, vBKey{val: k}, vU64(k))
+		vhAssert(err == nil, "independent map set")
+	}
+	for _, k := range []uint64{7, 263, 8} {
+		v, gerr := other.Get(vhCompareBK, vhHipLow, vBKey{val: k})
+		vhAssert(gerr == nil, "independent map finds what it stored")
+		if gerr == nil {
+			vhAssert(uint64(v.(vU64)) == k, "independent map value")
+		}
+	}
+	vhAssert(VerifyMap(other, vhAddr(2), vTypeInfo{id: 43}, vhTic, vhHipLow, true) == nil, "independent map valid")
+	vhReach("batch-digester-pool-done")
 }
 
 // Encoding is a function of the slab content only: with Go map iteration
